@@ -161,6 +161,11 @@ func genPool(r *Rng, idx int, thorough bool) *poolSpec {
 				f = append(f, fmt.Sprintf("x:%d", r.Intn(5)))
 			}
 			f = append(f, fmt.Sprintf("g:\"%s\"", Pick(r, []string{"a", "b", "c"})))
+			// mv: values of several types under one name, so that a worker's partial
+			// aggregate over mv (union, collect, dcount, fuse) holds values of union type
+			if r.Chance(7, 8) {
+				f = append(f, "mv:"+Pick(r, []string{"1", "2", "3", "\"w\"", "\"x\"", "\"y\"", "1.5", "2.", "true", "10.0.0.1", "1s", "null(int64)", "null(string)", "[1,2]", "{q:1}", "\"\"", "80(port=uint16)"}))
+			}
 			f = append(f, fmt.Sprintf("f:%d.%s", r.Intn(4), Pick(r, []string{"", "25", "5", "75"})))
 			na := r.Intn(4)
 			var arr []string
@@ -652,7 +657,11 @@ func genHeadTail(r *Rng, s *pstate) {
 	}
 	switch s.prog.Mode {
 	case mSorted:
+		// Which of several values with equal sort keys survive the truncation is
+		// not determined, so nothing computed from the survivors (a filter, a
+		// group-by on another field, ...) is comparable any more: stop here.
 		s.prog.Trunc = true
+		s.done = true
 	case mMset:
 		s.prog.Mode = mCount
 		s.done = true
@@ -662,6 +671,7 @@ func genHeadTail(r *Rng, s *pstate) {
 var aggExprs = []string{
 	"count()", "sum(x)", "min(x)", "max(x)", "avg(x)", "cl:=collect(x)", "u:=union(x)", "dcount(x)",
 	"sum(f)", "cl2:=collect(g)", "count() where x==1", "and(x>0)", "or(x>3)", "mx:=max(id)", "mn:=min(g)", "u2:=union(g)",
+	"um:=union(mv)", "um:=union(mv)", "clm:=collect(mv)", "dm:=dcount(mv)", "fm:=fuse(mv)", "cm:=count() where mv==1",
 }
 
 func genSummarize(r *Rng, s *pstate, keyRef, key string) {
